@@ -4,9 +4,12 @@
 use std::collections::{BTreeMap, BTreeSet};
 use std::ops::Bound;
 use std::path::{Path, PathBuf};
+use std::sync::Arc;
+use std::sync::atomic::{AtomicU64, Ordering};
+use std::time::{Duration, Instant};
 
 use arrrg::CommandLine;
-use lsmtk::verif::{StepMode, set_step_mode, steps_completed};
+use lsmtk::verif::{SchedEvent, StepMode, set_step_mode, steps_completed};
 use lsmtk::{KeyValueStore, LsmTree, LsmVerifier, LsmtkOptions, WriteBatch};
 use sst::{Builder, Cursor};
 use vcore::{Value, json};
@@ -167,6 +170,29 @@ pub fn config_grid() -> Vec<Cfg> {
             ("mani-log-rollover-ratio", "2"),
         ],
     ));
+    // I: a byte limit on compactions that two 1.5 KiB level-0 files already exceed (level-0
+    // compactions are exempt from it; a stalled level 0 must still find its relieving compaction)
+    rows.push(Cfg::new(
+        "I-bytes2k",
+        &[
+            ("memtable-size-bytes", "0"),
+            ("l0-mandatory-compaction-threshold-files", "2"),
+            ("l0-write-stall-threshold-files", "4"),
+            ("max-compaction-bytes", "2048"),
+            ("sst-target-file-size", "4096"),
+            ("sst-minimum-file-size", "4096"),
+        ],
+    ));
+    // J: level 0 stalls and becomes mandatory by bytes, not by file count
+    rows.push(Cfg::new(
+        "J-stallbytes",
+        &[
+            ("memtable-size-bytes", "0"),
+            ("l0-mandatory-compaction-threshold-bytes", "1500"),
+            ("l0-write-stall-threshold-bytes", "3000"),
+            ("max-compaction-files", "3"),
+        ],
+    ));
     rows
 }
 
@@ -174,9 +200,12 @@ pub fn config_grid() -> Vec<Cfg> {
 
 /// What an externally built SST contains: (key index, kind) in key order, kinds: 'p' put, 'd'
 /// tombstone, 'h' 5 KiB put, 'v' two versions of the key in the one file (tombstone below a put),
-/// 'w' two versions (put below a tombstone).  Timestamps grow with the step, so the file that is
+/// 'w' two versions (put below a tombstone), 'o' a put whose timestamp lies two steps back.  Timestamps grow with the step, so the file that is
 /// ingested last holds the last write of each of its keys.
-pub const INGEST_MENU: [(&str, &[(usize, char)]); 10] = [
+/// Keys of ingested files: the store's keys plus one that only the 'o' kind writes.
+pub const INGEST_KEYS: [&[u8]; 4] = [b"a", b"ab", b"b", b"c"];
+
+pub const INGEST_MENU: [(&str, &[(usize, char)]); 12] = [
     ("a", &[(0, 'p')]),
     ("ab", &[(1, 'p')]),
     ("b", &[(2, 'p')]),
@@ -187,6 +216,12 @@ pub const INGEST_MENU: [(&str, &[(usize, char)]); 10] = [
     ("AB", &[(1, 'h')]),
     ("a2", &[(0, 'v')]),
     ("a2-", &[(0, 'w')]),
+    // a new version of `a` next to a version of `c` that carries an OLD timestamp (`c` is written
+    // by these two shapes only, so its newest version is still the one ingested last): the file's
+    // key range covers everything and its timestamp range straddles the files ingested in the two
+    // steps before it -- level-0 files that neither recovery nor a trivial move can order
+    ("a~c", &[(0, 'p'), (3, 'o')]),
+    ("-ab~c", &[(1, 'd'), (3, 'o')]),
 ];
 
 #[derive(Clone, Debug, PartialEq, Eq, Hash)]
@@ -202,7 +237,14 @@ pub enum Op {
     /// External ingest of a freshly built SST into a bare `LsmTree` (subject "tree" only); the
     /// index selects the file's contents from `INGEST_MENU`.
     Ingest(usize),
+    /// The same ingest started while level 0 is at the stall threshold: it runs on a helper thread,
+    /// parks on the stall condition and is completed by a later compaction step.
+    IngestStalled(usize),
     Flush,
+    /// One iteration of the flush loop started while level 0 is at the stall threshold: it runs
+    /// on a helper thread, parks on the stall condition, and is completed by whichever later
+    /// compaction step makes room (store subject only).
+    FlushStalled,
     Compact,
     CompactAll,
     Reopen,
@@ -222,7 +264,9 @@ impl Op {
             Op::PutBig(k) => format!("putbig:{}", String::from_utf8_lossy(KEYS[*k])),
             Op::PutHuge(k) => format!("puthuge:{}", String::from_utf8_lossy(KEYS[*k])),
             Op::Ingest(i) => format!("ing:{}", INGEST_MENU[*i].0),
+            Op::IngestStalled(i) => format!("ing!:{}", INGEST_MENU[*i].0),
             Op::Flush => "F".into(),
+            Op::FlushStalled => "F!".into(),
             Op::Compact => "C".into(),
             Op::CompactAll => "C*".into(),
             Op::Reopen => "R".into(),
@@ -240,6 +284,7 @@ impl Op {
         }
         match s {
             "F" => Op::Flush,
+            "F!" => Op::FlushStalled,
             "C" => Op::Compact,
             "C*" => Op::CompactAll,
             "R" => Op::Reopen,
@@ -252,12 +297,13 @@ impl Op {
                     "putbig" => Op::PutBig(key(b)),
                     "puthuge" => Op::PutHuge(key(b)),
                     "batch" => Op::Batch(b.parse().unwrap()),
-                    "ing" => Op::Ingest(
-                        INGEST_MENU
+                    "ing" | "ing!" => {
+                        let i = INGEST_MENU
                             .iter()
                             .position(|m| m.0 == b)
-                            .unwrap_or_else(|| panic!("bad ingest file {b}")),
-                    ),
+                            .unwrap_or_else(|| panic!("bad ingest file {b}"));
+                        if a == "ing" { Op::Ingest(i) } else { Op::IngestStalled(i) }
+                    }
                     "scan" => Op::Scan(b.parse().unwrap()),
                     "walk" => {
                         let (i, m) = b.split_once(':').unwrap();
@@ -272,7 +318,7 @@ impl Op {
     pub fn is_client_write(&self) -> bool {
         matches!(
             self,
-            Op::Put(_) | Op::Del(_) | Op::Batch(_) | Op::PutBig(_) | Op::PutHuge(_) | Op::Ingest(_)
+            Op::Put(_) | Op::Del(_) | Op::Batch(_) | Op::PutBig(_) | Op::PutHuge(_) | Op::Ingest(_) | Op::IngestStalled(_)
         )
     }
 }
@@ -389,12 +435,47 @@ pub enum StepResult {
     Err(String),
 }
 
+struct PendingFlush {
+    handle: std::thread::JoinHandle<Result<bool, String>>,
+    /// how often the helper reported that it is about to wait on the stall condition
+    stalls: Arc<AtomicU64>,
+    kind: PendingKind,
+}
+
+enum PendingKind {
+    Flush,
+    /// the writes the ingested file carries (they count once the ingest has returned)
+    Ingest(Vec<(Vec<u8>, Option<Vec<u8>>)>),
+}
+
+thread_local! {
+    static STALL_CELL: std::cell::RefCell<Option<Arc<AtomicU64>>> = const { std::cell::RefCell::new(None) };
+}
+
+/// The scheduling hook of the sequential engine: it only records that the calling helper thread
+/// is about to park on the level-0 stall.
+pub fn stall_hook(ev: SchedEvent) {
+    if ev == SchedEvent::IngestStalled {
+        STALL_CELL.with(|c| {
+            if let Some(a) = c.borrow().as_ref() {
+                a.fetch_add(1, Ordering::SeqCst);
+            }
+        });
+    }
+}
+
+/// How long a step that must make progress may take before it is reported as hung.
+const HANG: Duration = Duration::from_secs(30);
+
 pub struct Store {
     pub cfg: Cfg,
     pub dir: PathBuf,
     kvs: Option<&'static KeyValueStore>,
     /// subject "tree": a bare LsmTree fed by external ingests instead of a KeyValueStore
     bare: Option<&'static LsmTree>,
+    /// a flush parked on the level-0 stall (see Op::FlushStalled)
+    pending: Option<PendingFlush>,
+    pub n_stalled_flushes_completed: u64,
     pub model: Model,
     pub cursors: Vec<KeptCursor>,
     pub step: usize,
@@ -436,6 +517,8 @@ impl Store {
             dir: dir.to_path_buf(),
             kvs,
             bare,
+            pending: None,
+            n_stalled_flushes_completed: 0,
             model: Model::new(),
             cursors: vec![],
             step: 0,
@@ -474,8 +557,133 @@ impl Store {
         }
     }
 
+    /// Start one flush-loop iteration on a helper thread and wait until it parks on the stall
+    /// (or, if level 0 made room after all, until it is done).
+    fn start_stalled_flush(&mut self) -> StepResult {
+        let kvs = self.kvs();
+        self.start_stalled(
+            move || {
+                set_step_mode(StepMode::StepNoWait);
+                let before = steps_completed();
+                let r = vcore::catch(|| kvs.memtable_thread());
+                set_step_mode(StepMode::Off);
+                match r {
+                    Err(p) => Err(format!("panic in flush: {p}")),
+                    Ok(Err(e)) => Err(format!("flush failed: {e}")),
+                    Ok(Ok(())) => Ok(steps_completed() > before),
+                }
+            },
+            PendingKind::Flush,
+        )
+    }
+
+    /// Run `body` (a flush or an ingest that is expected to park on the level-0 stall) on a
+    /// helper thread and wait until it parks or returns.
+    fn start_stalled(
+        &mut self,
+        body: impl FnOnce() -> Result<bool, String> + Send + 'static,
+        kind: PendingKind,
+    ) -> StepResult {
+        let stalls = Arc::new(AtomicU64::new(0));
+        let s2 = Arc::clone(&stalls);
+        let handle = std::thread::spawn(move || {
+            STALL_CELL.with(|c| *c.borrow_mut() = Some(s2));
+            body()
+        });
+        let mut kind = Some(kind);
+        let deadline = Instant::now() + HANG;
+        loop {
+            if stalls.load(Ordering::SeqCst) > 0 {
+                self.pending = Some(PendingFlush { handle, stalls, kind: kind.take().unwrap() });
+                return StepResult::Ok;
+            }
+            if handle.is_finished() {
+                self.pending = Some(PendingFlush { handle, stalls, kind: kind.take().unwrap() });
+                return match self.finish_pending() {
+                    Ok(()) => StepResult::Ok,
+                    Err(e) => StepResult::Err(e),
+                };
+            }
+            if Instant::now() > deadline {
+                std::mem::forget(handle);
+                return StepResult::Err("a flush or ingest into a level 0 at the stall threshold neither parked on the stall nor returned within 30 s".into());
+            }
+            std::thread::sleep(Duration::from_micros(20));
+        }
+    }
+
+    fn finish_pending(&mut self) -> Result<(), String> {
+        let p = self.pending.take().expect("pending");
+        let deadline = Instant::now() + HANG;
+        while !p.handle.is_finished() {
+            if Instant::now() > deadline {
+                // leak the thread (and, in close(), the store it borrows)
+                self.pending = Some(p);
+                return Err("level 0 no longer holds back ingest, but the flush or ingest parked on the stall was not woken within 30 s".into());
+            }
+            std::thread::sleep(Duration::from_micros(20));
+        }
+        match p.handle.join() {
+            Err(_) => Err("the flush thread panicked outside the subject".into()),
+            Ok(Err(e)) => Err(e),
+            Ok(Ok(_)) => {
+                self.n_stalled_flushes_completed += 1;
+                match p.kind {
+                    PendingKind::Flush => {
+                        self.n_flush += 1;
+                        self.dirty = false;
+                        self.mem_entries.clear();
+                    }
+                    PendingKind::Ingest(writes) => {
+                        for (k, v) in writes {
+                            self.model.insert(k, v);
+                        }
+                    }
+                }
+                Ok(())
+            }
+        }
+    }
+
+    /// After a compaction step: a parked flush must go through as soon as level 0 has room.
+    fn after_compaction(&mut self) -> Result<(), String> {
+        let done = match &self.pending {
+            None => return Ok(()),
+            Some(p) => p.handle.is_finished(),
+        };
+        if done || !self.would_stall() {
+            return self.finish_pending();
+        }
+        Ok(())
+    }
+
+    pub fn has_pending_flush(&self) -> bool {
+        self.pending.is_some()
+    }
+
     fn close(&mut self) {
         self.cursors.clear();
+        if self.pending.is_some() {
+            // let the parked flush through: compact until level 0 has room
+            for _ in 0..64 {
+                if self.pending.is_none() {
+                    break;
+                }
+                match self.compact_step() {
+                    Ok(true) => {
+                        let _ = self.after_compaction();
+                    }
+                    _ => break,
+                }
+            }
+            if let Some(p) = self.pending.take() {
+                // it cannot be released: leak the helper and the store it borrows
+                std::mem::forget(p);
+                self.kvs = None;
+                self.bare = None;
+                return;
+            }
+        }
         if let Some(k) = self.kvs.take() {
             // SAFETY: created by Box::leak in open/reopen; every borrower (the kept cursors) was
             // dropped on the line above.
@@ -543,23 +751,39 @@ impl Store {
         let step = self.step;
         if self.is_bare_tree() {
             match op {
-                Op::Ingest(_) | Op::Compact | Op::CompactAll | Op::Reopen | Op::Verify | Op::Scan(_) | Op::Walk(..) => {}
+                Op::Ingest(_) | Op::IngestStalled(_) | Op::Compact | Op::CompactAll | Op::Reopen | Op::Verify | Op::Scan(_) | Op::Walk(..) => {}
                 _ => return StepResult::Disabled,
             }
-        } else if matches!(op, Op::Ingest(_)) {
+        } else if matches!(op, Op::Ingest(_) | Op::IngestStalled(_)) {
             return StepResult::Disabled;
+        }
+        if self.pending.is_some() {
+            // while a flush is parked on the stall only background steps and reads go on
+            match op {
+                Op::Compact | Op::CompactAll | Op::Verify | Op::Scan(_) | Op::Walk(..) => {}
+                _ => return StepResult::Disabled,
+            }
+        }
+        if *op == Op::FlushStalled {
+            if self.is_bare_tree() || !self.flush_pending() || !self.would_stall() {
+                return StepResult::Disabled;
+            }
+            return self.start_stalled_flush();
         }
         match op {
             // an ingest into a full level 0 parks until a compaction thread makes room: not
             // enabled in a single-threaded history (C20 looks at these states)
             Op::Ingest(_) if self.would_stall() => StepResult::Disabled,
-            Op::Ingest(i) => self.ingest(*i, step),
+            Op::Ingest(i) => self.ingest(*i, step, false),
+            // ... and this is the variant that does park (covered by Ingest when there is room)
+            Op::IngestStalled(_) if !self.would_stall() => StepResult::Disabled,
+            Op::IngestStalled(i) => self.ingest(*i, step, true),
             _ => self.apply_kvs(op, step),
         }
     }
 
     /// Build an SST outside the store and hand it to `LsmTree::ingest`.
-    fn ingest(&mut self, which: usize, step: usize) -> StepResult {
+    fn ingest(&mut self, which: usize, step: usize, stalled: bool) -> StepResult {
         let tree = self.tree();
         let ext = self.dir.with_extension(format!("ext{step}.sst"));
         let _ = std::fs::remove_file(&ext);
@@ -568,7 +792,7 @@ impl Store {
         let built = vcore::catch(|| -> Result<(), String> {
             let mut b = sst::SstBuilder::new(sst::SstOptions::default(), &ext).map_err(|e| e.to_string())?;
             for (k, kind) in INGEST_MENU[which].1.iter() {
-                let key = KEYS[*k];
+                let key = INGEST_KEYS[*k];
                 let v = match kind {
                     'h' => big_value(step, 5000),
                     _ => self.value_for(step),
@@ -592,6 +816,13 @@ impl Store {
                         b.put(key, ts + 1, &v).map_err(|e| e.to_string())?;
                         writes.push((key.to_vec(), None));
                     }
+                    'o' => {
+                        // slot 3 of the step before the previous one: unused by every other kind
+                        // (steps 1, 2, 3, ... give 1, 3, 7, 11, ...: still growing with the step)
+                        let old = if step >= 2 { ts - 5 } else { 1 };
+                        b.put(key, old, &v).map_err(|e| e.to_string())?;
+                        writes.push((key.to_vec(), Some(v)));
+                    }
                     _ => unreachable!(),
                 }
             }
@@ -602,6 +833,21 @@ impl Store {
             Err(p) => return StepResult::Err(format!("harness could not build the external sst (panic): {p}")),
             Ok(Err(e)) => return StepResult::Err(format!("harness could not build the external sst: {e}")),
             Ok(Ok(())) => {}
+        }
+        if stalled {
+            let ext2 = ext.clone();
+            return self.start_stalled(
+                move || {
+                    let r = vcore::catch(|| tree.ingest(&ext2));
+                    let _ = std::fs::remove_file(&ext2);
+                    match r {
+                        Err(p) => Err(format!("panic in ingest: {p}")),
+                        Ok(Err(e)) => Err(format!("ingest failed: {e}")),
+                        Ok(Ok(())) => Ok(true),
+                    }
+                },
+                PendingKind::Ingest(writes),
+            );
         }
         let r = vcore::catch(|| tree.ingest(&ext));
         let _ = std::fs::remove_file(&ext);
@@ -664,7 +910,7 @@ impl Store {
         let kvs_opt = self.kvs;
         let kvs = || kvs_opt.expect("this step needs a KeyValueStore");
         match op {
-            Op::Ingest(_) => StepResult::Disabled,
+            Op::Ingest(_) | Op::IngestStalled(_) | Op::FlushStalled => StepResult::Disabled,
             Op::Put(k) | Op::PutBig(k) | Op::PutHuge(k) => {
                 let v = match op {
                     Op::PutBig(_) => big_value(step, 1536),
@@ -743,7 +989,10 @@ impl Store {
                 Ok(false) => StepResult::Noop,
                 Ok(true) => {
                     self.n_compact += 1;
-                    StepResult::Ok
+                    match self.after_compaction() {
+                        Ok(()) => StepResult::Ok,
+                        Err(e) => StepResult::Err(e),
+                    }
                 }
             },
             Op::CompactAll => {
@@ -755,6 +1004,9 @@ impl Store {
                         Ok(true) => {
                             n += 1;
                             self.n_compact += 1;
+                            if let Err(e) = self.after_compaction() {
+                                return StepResult::Err(e);
+                            }
                             if n >= 64 {
                                 self.horizon_hit = true;
                                 break;
